@@ -121,6 +121,15 @@ theorem known_type_reused {b b' : Builder} {u : Int} {t id : Nat} {data : List I
   simp only [Builder.addItem, hu]
   cases b'.snap.raw.addItem (keyOf t id) data <;> rfl
 
+/-- Target reuse is behaviour-neutral in the model: the result of `read_with_delta` (and of the two
+wire readers) does not depend on what the target `Snap` held before.  (True by construction — the
+model clears the target first, as the code does; the implementation is held to it by the oracle
+`C10+C11/target-reuse-differs`, which repeats every read into used targets.) -/
+theorem target_reuse_neutral (t t' a : Snap) (d : Delta) (data : List Int) (bs : List UInt8) :
+    Snap.readWithDeltaInto t a d = Snap.readWithDeltaInto t' a d ∧
+    Snap.readFromIntsInto t data = Snap.readFromIntsInto t' data ∧
+    Snap.readBytesInto t bs = Snap.readBytesInto t' bs := ⟨rfl, rfl, rfl⟩
+
 /-- The former counterexample (D6): one UUID-typed item, written to integers and read back; the
 lookup by UUID on the copy finds the item. -/
 theorem uuid_lookup_on_copy :
